@@ -47,4 +47,112 @@ theorem shWs_ideal (c : Cfg) (hW : 0 < c.W) (K : Nat) :
     rw [idealE_pad c hW K K w (Nat.le_refl _) hw]
   · simp [List.getElem?_eq_none, hw]
 
+theorem baseG_pad (c : Cfg) (hW : 0 < c.W) (K : Nat) :
+    BaseG (padCfg c K) (hist c K) (walk c K).1 (walk c K).2 (Tof c K) := by
+  have hW2 : 0 < (padCfg c K).W := hW
+  refine ⟨walk_lt c hW K, hist_own c hW K, fun w hw => (Tof_eq c hW K w hw).symm, fun w _ => rfl,
+    fun w hw => ?_, ?_⟩
+  · rw [Tof_eq c hW K w hw]; exact bOf_padCfg_ge c hW K w hw
+  · have := hist_live (padCfg c K) hW2 K
+    rw [show hist (padCfg c K) K = hist c K from hist_withShards c _ K,
+      show walk (padCfg c K) K = walk c K from walk_withShards c _ K] at this
+    exact this
+
+theorem lastIs_pad (c : Cfg) (hW : 0 < c.W) (m K lw : Nat) (hp : Ptr c m K lw) :
+    LastIs (padCfg c K) (livePairs (padCfg c K) (hist c K)) lw := by
+  rcases hp.slot with h0 | ⟨K', hK, hlw, hcnt⟩
+  · subst h0
+    rcases hp.last with ⟨_, h2⟩ | ⟨E0, j, h1, _⟩
+    · exact Or.inl ⟨rfl, h2⟩
+    · simp [hist, livePairs_nil] at h1
+  · subst hK
+    right
+    have hv := walk_lt c hW K'
+    have hb2 : bOf (padCfg c (K' + 1)) lw = offOf c (K' + 1) lw + bOf c lw := bOf_pad c _ lw (by rw [hlw]; exact hv)
+    refine ⟨livePairs (padCfg c (K' + 1)) (hist c K'), (hist c K').count lw, ?_, by omega⟩
+    rw [livePairs_pad_succ c hW (K' + 1) K', ← hlw, if_pos (by omega)]
+
+/-- The worker snapshots and the stored snapshot of the restored base state, in the virtual configuration. -/
+theorem ks_base (c : Cfg) (hW : 0 < c.W) (m K lw : Nat) (hp : Ptr c m K lw) (sn : Snap) (h1 : sn.step = m)
+    (h2 : sn.lastW = lw)
+    (h3 : sn.ws = (List.range c.W).map (idealE c (fun _ => false) (livePairs c (hist c K)))) :
+    KS (padCfg c K) (e0Of c K) (sumW (offOf c K) c.W) (shWs (offOf c K) sn.ws)
+      ⟨sn.step, sn.lastW, sn.main, shWs (offOf c K) sn.ws⟩ sn.step (livePairs (padCfg c K) (hist c K)) := by
+  have hws := shWs_ideal c hW K
+  rw [← h3] at hws
+  have hyc : sn.step + sumW (offOf c K) c.W = ndE (padCfg c K) (livePairs (padCfg c K) (hist c K)) := by
+    rw [ndE_pad c hW K K (Nat.le_refl _), hp.nd, h1]
+  refine ⟨by rw [shWs_length, h3]; simp; rfl, ?_, hyc, ?_, _, [], by simp, hws, hyc, ?_⟩
+  · intro w hw
+    left
+    have hw' : w < c.W := hw
+    rw [hws, List.getElem?_map, List.getElem?_range hw']
+    rfl
+  · intro w he
+    by_cases hw : w < c.W
+    · have hb2 : bOf (padCfg c K) w = offOf c K w + bOf c w := bOf_pad c _ w hw
+      rw [posE_livePairs, hb2]
+      simp only [e0Of, decide_eq_true_eq] at he
+      rw [offOf, Tof_eq c hW K w hw] at *
+      omega
+    · have : bOf (padCfg c K) w = 0 := by
+        show ((padShards c (offOf c K)).getD w []).length = 0
+        rw [pad_getD_ge c _ w (by omega)]; rfl
+      omega
+  · rw [h2]; exact lastIs_pad c hW m K lw hp
+
+/-- The restored base state (before priming) is a quiescent start state of the virtual configuration. -/
+theorem base_pad (c : Cfg) (hW : 0 < c.W) (m K lw : Nat) (hp : Ptr c m K lw) (sn : Snap) (h2 : sn.lastW = lw)
+    (h3 : sn.ws = (List.range c.W).map (idealE c (fun _ => false) (livePairs c (hist c K)))) :
+    Base (padCfg c K) (vs c K (restoreBase c sn)) K (walk c K).2 (Tof c K) := by
+  refine ⟨by simp [vs, lift, shift, restoreBase], by simp [vs, lift, shift, restoreBase], rfl, rfl, ?_, ?_, ?_, rfl, rfl,
+    rfl, rfl⟩
+  · show (sn.lastW + 1) % c.W = _
+    rw [h2, hp.cyc]
+  · show ((mapFrom (shWorker (offOf c K)) 0 (restoreWorkers c sn.ws c.W)).map (liftWorker K)).length = c.W
+    rw [List.length_map, mapFrom_length, restoreWorkers_length]
+  · intro w k hk
+    have hk' : ((mapFrom (shWorker (offOf c K)) 0 (restoreWorkers c sn.ws c.W)).map (liftWorker K))[w]? = some k := hk
+    rw [List.getElem?_map, mapFrom_getElem?, Nat.zero_add] at hk'
+    have hw : w < c.W := by
+      rcases Nat.lt_or_ge w c.W with h | h
+      · exact h
+      · rw [List.getElem?_eq_none (by rw [restoreWorkers_length]; exact h)] at hk'; simp at hk'
+    rw [restoreWorkers_get c sn.ws c.W w hw] at hk'
+    simp only [Option.map_some, Option.some.injEq] at hk'
+    subst hk'
+    have hget : sn.ws[w]? = some (idealE c (fun _ => false) (livePairs c (hist c K)) w) := by
+      rw [h3, List.getElem?_map, List.getElem?_range hw]; rfl
+    rw [hget]
+    refine ⟨rfl, ?_, rfl⟩
+    show (restoreWorker c w (some (idealE c (fun _ => false) (livePairs c (hist c K)) w))).pos + offOf c K w = Tof c K w
+    simp only [restoreWorker, idealE, posE_livePairs, endE_livePairs, Bool.or_false]
+    rw [offOf, Tof_eq c hW K w hw]
+    show (if decide (bOf c w < (hist c K).count w) = true then
+        max (min ((hist c K).count w) (bOf c w)) (bOf c w) else min ((hist c K).count w) (bOf c w)) +
+      ((hist c K).count w - bOf c w) = (hist c K).count w
+    split
+    · rename_i h; simp at h; omega
+    · rename_i h; simp at h; omega
+
+theorem vs_restore (c : Cfg) (K : Nat) (sn : Snap) :
+    vs c K (restore c sn) = prime (padCfg c K) (c.P * c.W) (vs c K (restoreBase c sn)) := by
+  unfold vs restore
+  rw [← prime_shift c (padShards c (offOf c K)) (offOf c K), ← prime_lift]
+  rfl
+
+/-- The restored iterator, seen in the virtual configuration, satisfies the joint invariant. -/
+theorem restore_J (c : Cfg) (hv : c.ValidI) (hit : c.iterable = true) (hio : c.inOrder = true) (hok : ShardsOk c)
+    (m K lw : Nat) (hp : Ptr c m K lw) (sn : Snap) (hsn : SnapEq c sn (idealAt c m)) :
+    J (padCfg c K) (e0Of c K) (sumW (offOf c K) c.W) (vs c K (restore c sn)) := by
+  obtain ⟨h1, h2, h3⟩ := snap_of_ptr c hit hv hok m K lw hp sn hsn
+  rw [vs_restore]
+  have hobs : (vs c K (restoreBase c sn)).obs = preV c K := by simp [vs, lift, shift, restoreBase]
+  apply base_J (padCfg c K) (e0Of c K) (sumW (offOf c K) c.W) _ K (walk c K).2 (walk c K).1 (Tof c K) (hist c K)
+    hit hio (Nat.mul_pos hv.1.2 hv.1.1) (base_pad c hv.1.1 m K lw hp sn h2 h3) (baseG_pad c hv.1.1 K) (hist_length c K)
+  · rw [hobs, preV, taskObs_map_expected]; exact ObsRel_map_expected _
+  · rw [hobs]; exact not_mem_map_expected _ _ (fun it => by cases it <;> simp [expected])
+  · rw [hobs]; exact not_mem_map_expected _ _ (fun it => by cases it <;> simp [expected])
+  · exact ks_base c hv.1.1 m K lw hp sn h1 h2 h3
+
 end TDV.MPRI
